@@ -331,6 +331,8 @@ func (c *Ctx) cancelWith(err error) {
 	cs.closed = true
 	if E.cur != nil {
 		E.cur.hist = mix(E.cur.hist, hCloseOK)
+		cs.closeVC = E.cur.vc.copy()
+		E.cur.tick()
 	}
 	if c.timer != nil {
 		c.timer.Stop()
@@ -366,14 +368,21 @@ func NewShared(name string, v int64) *Shared {
 	return &Shared{s: s, name: name}
 }
 
+func (s *Shared) sync() {
+	E.cur.acquire(s.s.vc)
+	s.s.vc = joinVC(s.s.vc, E.cur.vc)
+}
+
 func (s *Shared) Load() int64 {
 	Yield("load " + s.name)
+	s.sync()
 	E.cur.hist = mix(mix(mix(E.cur.hist, hLoad), uint64(s.s.count)), s.s.hash)
 	return int64(s.s.count)
 }
 
 func (s *Shared) Store(v int64) {
 	Yield("store " + s.name)
+	s.sync()
 	s.s.count = int(v)
 	s.s.hash = E.cur.hist
 }
@@ -381,12 +390,14 @@ func (s *Shared) Store(v int64) {
 // Peek reads without a scheduling point. Only for code that runs in the same step as the operation
 // it is ordered with (e.g. inside a MessageWriter called by the code under test), and for oracles.
 func (s *Shared) Peek() int64 {
+	s.sync()
 	E.cur.hist = mix(mix(mix(E.cur.hist, hLoad), uint64(s.s.count)), s.s.hash)
 	return int64(s.s.count)
 }
 
 // Poke writes without a scheduling point (same restriction as Peek).
 func (s *Shared) Poke(v int64) {
+	s.sync()
 	s.s.count = int(v)
 	s.s.hash = E.cur.hist
 }
@@ -413,6 +424,7 @@ func OnceEnter(s *SyncObj) bool {
 		// Done never changes again: the call commutes with every other operation, so it is not a
 		// scheduling point. The caller still learns what the once function published.
 		E.cur.hist = mix(mix(E.cur.hist, hOnceDone), s.hash)
+		E.cur.acquire(s.vc)
 		return false
 	}
 	o := &op{kind: opOnce, obj: s}
@@ -428,6 +440,8 @@ func OnceExit(s *SyncObj) {
 	s.state = 2
 	if E.cur != nil {
 		s.hash = E.cur.hist
+		s.vc = E.cur.vc.copy()
+		E.cur.tick()
 	}
 }
 
@@ -438,6 +452,9 @@ func RUnlock(s *SyncObj) { o := &op{kind: opRUnlock, obj: s}; E.yield(o); panicI
 
 func WGAdd(s *SyncObj, n int) {
 	Yield("wg.Add")
+	if n < 0 {
+		s.vc = joinVC(s.vc, E.cur.vc) // Done happens before the Wait it unblocks
+	}
 	s.count += n
 	if s.count < 0 {
 		panic("sync: negative WaitGroup counter")
